@@ -262,8 +262,30 @@ def mdns_check(ref, impl, lru):
     return None
 
 
+def oracle_flood(case, impl):
+    """one packet announcing n hosts, then a late announcement: the reader survives, the table is bounded, the late name is there"""
+    import re
+    f = case.split(" ")
+    cap, n = int(f[1]), int(f[2])
+    if impl.startswith(("STUCK", "TIMEOUT", "PANIC")):
+        return ("after ONE mDNS response packet announcing %d hosts (table size %d) %s: every later lookup of a client's name blocks"
+                % (n, cap, impl[:120]))
+    m = re.match(r"size=(\d+) addrs=(\d+) late=([01])$", impl)
+    if not m:
+        return "unexpected harness output " + impl[:80]
+    if int(m.group(1)) > cap:
+        return "the mDNS name table holds %s entries, the bound is %d" % (m.group(1), cap)
+    if int(m.group(1)) != min(cap, n + 1):
+        return "after %d distinct announcements and one more the table holds %s names, expected %d" % (n, m.group(1), min(cap, n + 1))
+    if m.group(3) != "1":
+        return "an announcement that arrived after the flood was not learned"
+    return None
+
+
 def oracle_mdns(case, impl):
     f = case.split(" ")
+    if f[0] == "mdnsflood":
+        return oracle_flood(case, impl)
     if impl.startswith(("PANIC", "TIMEOUT", "LOST", "ERR")):
         return f[0] + ": " + impl[:200]
     if f[0] == "mdnsops":
